@@ -38,8 +38,8 @@ type point struct {
 }
 
 type strategy struct {
-	prefix []int
-	points []point
+	prefix   []int
+	points   []point
 	diverged string
 }
 
